@@ -135,6 +135,34 @@ class Canon:
         return ["foreign", t.__name__]
 
 
+def labels_obs(v, classes):
+    """metadata of every labelled object (dataclass nodes and lists) in pre-order; nothing inside tuples"""
+    from geneticengine.grammar.utils import get_arguments
+
+    idx = {c: i for i, c in enumerate(classes)}
+    out = []
+
+    def one(o):
+        tw = getattr(o, "gengy_types_this_way", None)
+        counts = [[idx[k], len(vs)] for k, vs in (tw or {}).items() if k in idx]
+        return [getattr(o, "gengy_nodes", None), getattr(o, "gengy_distance_to_term", None), getattr(o, "gengy_weighted_nodes", None), sorted(counts),
+                bool(getattr(o, "gengy_labeled", False))]
+
+    def walk(o, depth=0):
+        if depth > 400:
+            return
+        if isinstance(o, list):
+            out.append(one(o))
+            for x in o:
+                walk(x, depth + 1)
+        elif type(o) in idx:
+            out.append(one(o))
+            for name, _ in get_arguments(type(o)):
+                walk(getattr(o, name), depth + 1)
+    walk(v)
+    return out
+
+
 def alts_obs(g, classes):
     idx = {c: i for i, c in enumerate(classes)}
     return [[idx.get(k, -1), [idx.get(v, -1) for v in vs]] for k, vs in g.alternatives.items()]
@@ -204,8 +232,12 @@ def case_create(c):
             from geneticengine.representations.tree.treebased import TreeBasedRepresentation, random_node
 
             if c.get("start") is None:
-                return canon(TreeBasedRepresentation(g, decider).create_genotype(src))
-            return canon(random_node(src, g, ty_of(c["start"], classes), decider))
+                tree = TreeBasedRepresentation(g, decider).create_genotype(src)
+            else:
+                tree = random_node(src, g, ty_of(c["start"], classes), decider)
+            if c.get("labels"):
+                out["labels"] = labels_obs(tree, classes)
+            return canon(tree)
         r = guarded(f)
         out["expanding"] = getattr(decider, "expanding", None)
     if r.get("exc") == "BadTape":
